@@ -1041,11 +1041,11 @@ TRUSTED = [
 ASSUME = [
     "Print Assumptions for every theorem of props/C09.v: see coverage.print_assumptions (all closed)",
     "theorems are stated for fullsheet=False (the observation point of the property) and doComments=True",
-    "proved for all lexemes: IDENT (except no-dash identifiers starting with u/U/an escape), HASH, ATKEYWORD, NUMBER, "
-    "PERCENTAGE, DIMENSION, STRING, COMMENT, S, match operators, CDO, CDC, fast-path and context-free delimiters; "
-    "lexeme_sequence over all adjacent sequences of these",
-    "finite vm_compute sweeps only: URI, UNICODE-RANGE, FUNCTION versus IDENT (and(), u/U/escape-initial identifiers, "
-    "at-keyword respellings, context-dependent delimiters (* / . + - < @ # ~ | ^ $)",
+    "proved for all lexemes: IDENT and FUNCTION (and( exception as coded; except no-dash names beginning ur / u\\ / u+ or "
+    "with an escape), HASH, ATKEYWORD (+ every respelling of the six symbols, via C10's RespellFacts), NUMBER, PERCENTAGE, "
+    "DIMENSION, STRING, COMMENT, S, match operators, CDO, CDC, fast-path / context-free / context-dependent delimiters; "
+    "RATIO characterised exactly on integer-initial texts; lexeme_sequence over all adjacent sequences of these",
+    "finite vm_compute sweeps only: URI, UNICODE-RANGE, ur-/escape-initial identifiers, the lone backslash",
     "hex_escape_resolved is partial: an escaped backslash directly followed by a hex digit is excluded (refuted, open finding)",
     "COMMENT values are escape-resolved by design (COMMENT is in the tokenizer's resolved list); the oracle expects that",
 ]
